@@ -63,6 +63,8 @@ def run_refine_dispatch(ctx):
 
     c = object.__new__(E.PsiContour)
     c.psival = 1.0
+    c.Rrange, c.Zrange = (1.0, 2.0), (-1.0, 1.0)
+    P = E.Point2D(1.5, 0.0)
     c.user_options = types.SimpleNamespace(refine_width=0.01, refine_atol=1e-8, refine_methods=["integrate+newton", "line"])
     log = []
     marks = {k: object() for k in ("newton", "line", "integrate")}
@@ -83,7 +85,7 @@ def run_refine_dispatch(ctx):
         c.refinePointLinesearch = mk_("line", "line" in fails)
         c.refinePointIntegrate = mk_("integrate", "integrate" in fails)
         try:
-            results[fails] = ("ok", c.refinePoint("P", "T", psi=None), list(log))
+            results[fails] = ("ok", c.refinePoint(P, "T", psi=None), list(log))
         except E.SolutionError:
             results[fails] = ("raise", None, list(log))
     ctx.oblige(TRUE(results[()][1] is marks["newton"] and [l[0] for l in results[()][2]] == ["integrate", "newton"] and results[()][2][1][1] is marks["integrate"]), "integrate+newton: Newton starts from the integrated point; its result is returned")
@@ -91,8 +93,19 @@ def run_refine_dispatch(ctx):
     ctx.oblige(TRUE(results[("newton", "line")][0] == "raise"), "all methods failing raises SolutionError (never an unrefined point silently)")
     ctx.oblige(TRUE(results[("integrate",)][1] is marks["line"] and [l[0] for l in results[("integrate",)][2]] == ["integrate", "line"]), "integrate failing skips its Newton step")
     ctx.oblige(TRUE(all(l[2] == 0.01 and l[3] == 1e-8 for l in results[()][2])), "width/atol default to the refine_* options")
+    # a point OUTSIDE the (R, Z) box of the equilibrium data (boundary guard cells beyond a target at
+    # the edge of the psi grid) is refined like any other: it is a grid point, the file stores it
+    # with its surface's psi
+    log.clear()
+    c.refinePointNewton, c.refinePointLinesearch, c.refinePointIntegrate = mk_("newton", False), mk_("line", False), mk_("integrate", False)
+    for P_out in (E.Point2D(2.5, 0.0), E.Point2D(1.5, -1.25), E.Point2D(0.5, 3.0)):
+        try:
+            got = c.refinePoint(P_out, "T", psi=None)
+        except Exception as e:  # noqa
+            got = e
+        ctx.oblige(TRUE(got is marks["newton"]), "a point outside the equilibrium's (R,Z) box is refined too (not returned as it came): (%s, %s)" % (P_out.R, P_out.Z))
     c.psival = None
-    ctx.oblige(TRUE(c.refinePoint("P", "T", psi=None) == "P"), "no psival: point returned unchanged")
+    ctx.oblige(TRUE(c.refinePoint(P, "T", psi=None) is P), "no psival: point returned unchanged")
 
 
 def run_fillRZ(xp_at):
